@@ -77,6 +77,7 @@ func runDriveGW(args []string) int {
 		}
 		steps := 3 + rnd.Intn(12)
 		jumpAt := -1
+		var futures []int64
 		if mp.B == 1600000000-1600000000%lcmAll(lay) && rnd.Intn(3) == 0 {
 			jumpAt = 1 + rnd.Intn(steps-1) // one clock jump of several years: slot distances beyond 2^31/12 points
 		}
@@ -100,6 +101,14 @@ func runDriveGW(args []string) int {
 				for i := range pts {
 					t := now - rnd.Int63n(maxRet)
 					pts[i] = &gw.TimeSeriesPoint{Time: int(mp.B + t), Value: float64((rnd.Int63n(41) - 20) * unit)}
+				}
+				if rnd.Intn(3) == 0 {
+					// a point dated ahead of the clock (both writers store it in the finest archive): it takes the ring slot of
+					// a live interval one lap earlier, which both readers must then report as empty
+					r0 := lay[0].Step * lay[0].N
+					t := now + 1 + rnd.Int63n(r0)
+					pts = append(pts, &gw.TimeSeriesPoint{Time: int(mp.B + t), Value: float64((rnd.Int63n(41) - 20) * unit)})
+					futures = append(futures, t)
 				}
 				db.UpdateMany(pts)
 			}
@@ -140,7 +149,7 @@ func runDriveGW(args []string) int {
 		}
 		g := gwOpen(path, uint32(mp.B+now))
 		maxStep := lay[k-1].Step
-		for q := 0; q < 12; q++ {
+		for q := 0; q < 12+len(futures); q++ {
 			// non-degenerate windows inside [now - maxRet + maxStep, now]
 			span := maxRet - maxStep
 			if span <= 0 {
@@ -150,6 +159,14 @@ func runDriveGW(args []string) int {
 			uq := fq + maxStep + rnd.Int63n(now-fq-maxStep+1)
 			if q == 0 {
 				fq, uq = now-maxRet+maxStep, now
+			}
+			if q >= 12 {
+				// the interval one lap before a future-dated point, read from the finest archive
+				r0, s0 := lay[0].Step*lay[0].N, lay[0].Step
+				fq, uq = futures[q-12]-r0-2*s0, futures[q-12]-r0+s0
+				if fq < now-r0+1 || uq > now {
+					continue
+				}
 			}
 			for _, hnd := range []int{1, 3} {
 				var res []interface{}
@@ -205,7 +222,20 @@ func runDriveGW(args []string) int {
 		// ---- phase 2: whispertool creates and writes; the bytes are parsed independently; both readers again
 		path2 := filepath.Join(dir, fmt.Sprintf("w%d.wsp", id))
 		now2 := maxRet + 2*lay[len(lay)-1].Step + 1000 + rnd.Int63n(5000)
-		w2, err := wt.Create(path2, archiveInfoList(cfg), methodOf(method), xffFloat(cfg.Xff))
+		var copts []wt.Option
+		if rnd.Intn(3) == 0 {
+			// re-creation in place (public option): a longer, zero-filled file already sits at the path; what whispertool
+			// leaves must still have exactly the length the new header implies
+			var total int64
+			for _, a := range lay {
+				total += a.N
+			}
+			if err := ioutil.WriteFile(path2, make([]byte, 16+12*int64(k)+12*total+int64(1+rnd.Intn(9000))), 0644); err != nil {
+				return 2
+			}
+			copts = append(copts, wt.WithOpenFileFlag(os.O_RDWR|os.O_CREATE))
+		}
+		w2, err := wt.Create(path2, archiveInfoList(cfg), methodOf(method), xffFloat(cfg.Xff), copts...)
 		if err != nil {
 			fmt.Fprintln(os.Stderr, "create:", err)
 			return 2
@@ -228,6 +258,9 @@ func runDriveGW(args []string) int {
 			pts := make([]wt.Point, m2)
 			for i := range pts {
 				pts[i] = wt.Point{Time: wt.Timestamp(mp.B + now2 - rnd.Int63n(ret)), Value: wt.Value(float64((rnd.Int63n(41) - 20) * unit))}
+			}
+			if rnd.Intn(3) == 0 {
+				pts = append(pts, wt.Point{Time: wt.Timestamp(mp.B + now2 + 1 + rnd.Int63n(lay[0].Step*lay[0].N)), Value: wt.Value(float64((rnd.Int63n(41) - 20) * unit))})
 			}
 			w2.UpdatePointsForArchive(pts, goArchive(sel), wt.Timestamp(mp.B+now2))
 		}
